@@ -135,7 +135,8 @@ class Run:
         REPLAY_DIR.joinpath(self.pid).mkdir(parents=True, exist_ok=True)
         h = hashlib.sha1(json.dumps(jsonable(witness), sort_keys=True).encode()).hexdigest()[:10]
         path = REPLAY_DIR / self.pid / f"{h}.json"
-        path.write_text(json.dumps({"property": self.pid, "obligation": name, "what": what,
+        path.write_text(json.dumps({"property": self.pid, "tier": self.tier, "seed": self.seed,
+                                    "obligation": name, "what": what,
                                     "witness": jsonable(witness)}, indent=1, ensure_ascii=False))
         self._violations += 1
         self.add(name, VIOLATION, family, {"what": what, "replay": str(path)}, solver_s)
